@@ -161,15 +161,23 @@ def guard_total(paths, recv_src, modglobals, member_classes=None):
             for t in (split_conj(test) if pos else [test]):
                 src = isinstance_lit(t, recv_src)
                 if src is None:
-                    if pos:
-                        continue      # non-isinstance conjunct (e.g. `rng is not None`): seed-presence test, ignored
-                    # negated compound: keep only if it is a plain isinstance
+                    tsrc = ast.unparse(t)
+                    harmless = (tsrc in ("rng is not None", "self.seed is not None")
+                                or tsrc in (f"hasattr({recv_src}, 'worker_init_fn')", f"hasattr({recv_src}, 'set_rng')"))
+                    if pos and harmless:
+                        continue      # seed-presence test / hook-presence test: true whenever a seeded KDTransform member is involved
+                    if (not pos) and tsrc in ("rng is None", "self.seed is None"):
+                        continue
+                    lits.append((pos, "<unknown:" + tsrc + ">"))
+                    atoms.setdefault("<unknown:" + tsrc + ">", None)
                     continue
                 lits.append((pos, src))
                 atoms[src] = t
         norm_paths.append(lits)
     always_true = set()
     for src, t in atoms.items():
+        if t is None:
+            continue      # unknown condition: stays a free atom, i.e. coverage must hold for both truth values
         g = t.args[1]
         names = g.elts if isinstance(g, ast.Tuple) else [g]
         for nm in names:
@@ -306,16 +314,37 @@ def seed_site(cls, slots):
             if not calls:
                 continue
             params = [a.arg for a in fn.args.args]
-            seed_srcs = []
-            for call in calls:
+            seed_srcs = []        # seed expressions used when a seed is configured
+            fallback_srcs = []    # seed expressions used when self.seed is None
+
+            def seed_expr(call):
                 if call.keywords:
-                    seed_srcs += [ast.unparse(k.value) for k in call.keywords if k.arg == "seed"]
-                elif call.args:
-                    seed_srcs.append(ast.unparse(call.args[0]))
-                else:
-                    seed_srcs.append("<entropy>")
-            plus_idx = "idx" in params and all(
-                s in ("self.seed + idx", "self.seed + idx if self.seed is not None else None") for s in seed_srcs)
+                    ks = [ast.unparse(k.value) for k in call.keywords if k.arg == "seed"]
+                    return ks[0] if ks else "<entropy>"
+                if call.args:
+                    return ast.unparse(call.args[0])
+                return "<entropy>"
+
+            def walk(stmts, unseeded):
+                for st in stmts:
+                    if isinstance(st, ast.If) and ast.unparse(st.test) in ("self.seed is not None", "self.seed is None"):
+                        pos = ast.unparse(st.test) == "self.seed is not None"
+                        walk(st.body, unseeded or not pos)
+                        walk(st.orelse, unseeded or pos)
+                        continue
+                    for n in ast.walk(st):
+                        if isinstance(n, ast.Call) and ast.unparse(n.func).endswith("default_rng"):
+                            e = seed_expr(n)
+                            if e.endswith(" if self.seed is not None else None"):
+                                seed_srcs.append(e[:-len(" if self.seed is not None else None")])
+                                fallback_srcs.append("None")
+                            elif unseeded:
+                                fallback_srcs.append(e)
+                            else:
+                                seed_srcs.append(e)
+
+            walk(fn.body, False)
+            plus_idx = "idx" in params and bool(seed_srcs) and all(s == "self.seed + idx" for s in seed_srcs)
             g = vars(sys.modules[c.__module__])
             seeded, attempted = calls_on_members(fn, "set_rng", slots, g)
             applied = applied_slots(fn, slots)
@@ -326,7 +355,8 @@ def seed_site(cls, slots):
                     s = ast.unparse(n.func)
                     if s in ("GlobalRng", "get_rng_from_global") or s.startswith(("np.random.rand", "np.random.perm", "torch.rand", "random.")):
                         other_draw.append(s)
-            return {"method": f"{c.__name__}.{fn.name}", "seedPlusIdx": plus_idx, "seed_exprs": seed_srcs, "seededSlots": seeded,
+            return {"method": f"{c.__name__}.{fn.name}", "seedPlusIdx": plus_idx, "seed_exprs": seed_srcs, "fallback_exprs": fallback_srcs,
+                    "seededSlots": seeded,
                     "attemptedSlots": attempted, "appliedSlots": applied, "unseededFallback": other_draw}
     return None
 
@@ -449,6 +479,8 @@ def init_problems(rows):
                 out[k] = ["worker_init_fn does not unconditionally call self.set_rng(get_rng_from_global())"]
     except Exception as e:
         out["hooks"] = [f"translator: {e}"]
+    for c in entropy_fallback_classes(rows):
+        out.setdefault(c, []).append("unseeded per-sample generator is created from OS entropy, not from the worker's global NumPy state")
     for r in rows:
         p = []
         wi = r["wi"]
@@ -483,6 +515,21 @@ def hook_reseeds():
     return out
 
 
+def entropy_fallback_classes(rows):
+    """classes whose per-sample generator falls back to OS entropy (default_rng(None) / default_rng()) when no seed is given:
+    such a stream is not derived from the worker's global seed and cannot be reproduced"""
+    out = []
+    for r in rows:
+        s = r["site"]
+        if s is None:
+            continue
+        for e in s.get("fallback_exprs", []):
+            if e in ("<entropy>", "None"):
+                out.append(r["name"])
+                break
+    return sorted(out)
+
+
 def emit(rows):
     L = ["/- GENERATED by harness/kdv/translate_wrappers.py from /repo — do not edit. -/",
          "import KDVerif.Model.SeedFlow", "", "namespace KDVerif.Gen.WrapperTable", "open KDVerif.RngFlow KDVerif.SeedFlow", "",
@@ -514,6 +561,8 @@ def emit(rows):
           "    (the model's `initKids` / `initCollators` presume exactly this) -/",
           f"def transformHookReseeds : Bool := {str(hk['KDTransform']).lower()}",
           f"def collatorHookReseeds : Bool := {str(hk['KDCollatorBase']).lower()}", "",
+          "/-- dataset layers whose own per-sample generator comes from OS entropy when no seed is configured -/",
+          "def entropyFallbackClasses : List String := [" + ", ".join(lean_str(x) for x in entropy_fallback_classes(rows)) + "]", "",
           "end KDVerif.Gen.WrapperTable", ""]
     return "\n".join(L)
 
